@@ -90,6 +90,68 @@ static uint8_t* slurp(const char* path, size_t* n) {
     return p;
 }
 
+/* GZIP / ZSTD pages: woracle=<u1:c1,u2:c2,...> — every gzip member / zstd frame found in the file (scanned by magic, no
+ * carquet code) is decompressed by zlib / libzstd called DIRECTLY, and the contents u are compressed again, directly, with
+ * the parameters page_writer.c hard-wires (gzip: level 6, windowBits 15+16, memLevel 8; zstd: level 3).  The driver hands
+ * the pairs to the writer model as its compression oracle and compares whole files byte for byte: the wrappers' parameters
+ * and the page bodies are thereby tied for codecs 2 and 6 as well. */
+#include <zlib.h>
+#include <zstd.h>
+static size_t wo_gunzip(const uint8_t* p, size_t n, uint8_t** out, size_t* outn) {
+    z_stream s; memset(&s, 0, sizeof s);
+    if (inflateInit2(&s, 31) != Z_OK) return 0;
+    size_t cap = 256 + n * 4; uint8_t* o = (uint8_t*)malloc(cap);
+    s.next_in = (Bytef*)p; s.avail_in = (uInt)n; s.next_out = o; s.avail_out = (uInt)cap;
+    for (;;) {
+        int r = inflate(&s, Z_NO_FLUSH);
+        if (r == Z_STREAM_END) break;
+        if (r != Z_OK) { inflateEnd(&s); free(o); return 0; }
+        if (s.avail_out == 0) { size_t used = cap; cap *= 2; o = (uint8_t*)realloc(o, cap); s.next_out = o + used; s.avail_out = (uInt)(cap - used); }
+        else if (s.avail_in == 0) { inflateEnd(&s); free(o); return 0; }
+    }
+    size_t used_in = (size_t)s.total_in; *outn = (size_t)s.total_out; *out = o; inflateEnd(&s); return used_in;
+}
+static size_t wo_unzstd(const uint8_t* p, size_t n, uint8_t** out, size_t* outn) {
+    size_t fs = ZSTD_findFrameCompressedSize(p, n);
+    if (ZSTD_isError(fs)) return 0;
+    unsigned long long cs = ZSTD_getFrameContentSize(p, fs);
+    size_t cap = (cs == ZSTD_CONTENTSIZE_UNKNOWN || cs == ZSTD_CONTENTSIZE_ERROR) ? fs * 64 + 1024 : (size_t)cs;
+    if (cap > (1u << 28)) return 0;
+    uint8_t* o = (uint8_t*)malloc(cap ? cap : 1);
+    size_t r = ZSTD_decompress(o, cap, p, fs);
+    if (ZSTD_isError(r)) { free(o); return 0; }
+    *out = o; *outn = r; return fs;
+}
+static void wo_print(FILE* f, const uint8_t* fb, size_t fn, int codec) {
+    int first = 1;
+    fprintf(f, " woracle=");
+    for (size_t i = 0; i + 4 <= fn && (codec == 2 || codec == 6); i++) {
+        uint8_t* u = NULL; size_t un = 0, used = 0;
+        if (codec == 2 && fb[i] == 0x1f && fb[i + 1] == 0x8b && fb[i + 2] == 8) used = wo_gunzip(fb + i, fn - i, &u, &un);
+        else if (codec == 6 && fb[i] == 0x28 && fb[i + 1] == 0xb5 && fb[i + 2] == 0x2f && fb[i + 3] == 0xfd) used = wo_unzstd(fb + i, fn - i, &u, &un);
+        if (!used) continue;
+        size_t cap = codec == 2 ? compressBound((uLong)un) + 64 : ZSTD_compressBound(un);
+        uint8_t* c = (uint8_t*)malloc(cap ? cap : 1); size_t cn = 0;
+        if (codec == 2) {
+            z_stream s; memset(&s, 0, sizeof s);
+            if (deflateInit2(&s, 6, Z_DEFLATED, 15 + 16, 8, Z_DEFAULT_STRATEGY) == Z_OK) {
+                s.next_in = u; s.avail_in = (uInt)un; s.next_out = c; s.avail_out = (uInt)cap;
+                if (deflate(&s, Z_FINISH) == Z_STREAM_END) cn = (size_t)s.total_out;
+                deflateEnd(&s);
+            }
+        } else {
+            size_t r = ZSTD_compress(c, cap, u, un, 3);
+            if (!ZSTD_isError(r)) cn = r;
+        }
+        if (!first) fputc(',', f);
+        first = 0;
+        h_hex(f, u, un); fputc(':', f); h_hex(f, c, cn);
+        free(u); free(c);
+        i += used - 1;
+    }
+    if (first) fputc('-', f);
+}
+
 static void run_case(hctx* h, fcase* fc) {
     char path[128], path2[128];
     snprintf(path, sizeof path, "/tmp/verif_h_%d_a.parquet", (int)getpid());
@@ -104,6 +166,7 @@ static void run_case(hctx* h, fcase* fc) {
     int all_ok = 1;
     for (int i = 0; i < nst; i++) { fprintf(h->out, "%s%d", i ? "," : "", st[i]); if (st[i] != 0) all_ok = 0; }
     fprintf(h->out, " file="); h_hex(h->out, fb, fn);
+    if (fc->codec == 2 || fc->codec == 6) wo_print(h->out, fb, fn, fc->codec);
     /* expected table: row groups = maximal runs of batches between rg steps, only those that exist in the file */
     int nrg_exp = 0; static echunk exp[20][MAXC]; memset(exp, 0, sizeof exp);
     { int open = 0;
